@@ -64,6 +64,12 @@ def battery(rng, tier):
         out.append(Case("battery", "det.sorted", [gen.spell(rng, rng.choice(gen.neighbours(rng, gen.rand_v(rng)))) for _ in range(rng.choice([2, 4, 7]))]))
         d = raw_meta(rng); reads = rng.sample(RAW_FIELDS, rng.randrange(1, 7))
         out.append(Case("battery", "det.meta", [json.dumps(d), json.dumps(reads)]))
+        d2 = raw_meta(rng)
+        if rng.random() < 0.7:                                          # several invalid fields at once: the order in which they are reported
+            d2.update(rng.sample([("name", "a b"), ("version", "x"), ("requires_python", "bad"), ("requires_dist", ["bad req!"]), ("license_expression", "zzz"),
+                                  ("provides_extra", ["a b"]), ("dynamic", ["name"]), ("bogus_key", "1"), ("summary", "a\nb")], rng.choice([2, 3, 5])))
+        keys = list(d2); rng.shuffle(keys)
+        out.append(Case("battery", "det.meta.validate", [json.dumps({k: d2[k] for k in keys})]))
         doc = "\n".join("%s: %s" % (rng.choice(["Name", "Version", "Keywords", "Classifier", "Project-URL", "X-Foo", "name", "Requires-Dist", "Metadata-Version"]),
                                     rng.choice(["a", "1.0", "a,b", "Home, https://x", "caf\xe9", "x; extra == 'y'"])) for _ in range(rng.randrange(0, 7))) + rng.choice(["\n", "\n\nbody\n"])
         out.append(Case("battery", "det.email", [doc, rng.choice("sb")]))
